@@ -60,6 +60,9 @@ Verdict(r) ==
     ELSE IF z.kind \notin AllowedExc(r) THEN "wrong-exception"
     ELSE IF z.connects >= 1 /\ z.disconnects # 1 THEN "not-disconnected"
     ELSE IF z.disk # z.reg THEN "final-registry-not-saved"
+    \* the same gateway object is entered again after the file was edited in between (node 90: level 77):
+    \* entering loads the file, so the registry - and the final save - carry the edited value
+    ELSE IF Sc(r).external_edit /\ (z.mark # 77 \/ z.dmark # 77) THEN "file-not-loaded-on-entering"
     ELSE IF z.alive # 0 THEN "task-left"
     ELSE IF ~ExitInstantOK(r) THEN "work-left-when-the-context-returned"
     ELSE IF ~CadenceOK(r) THEN "cadence"
